@@ -319,7 +319,7 @@ def main():
                 results = run_stage_shards(prop, tier, seed, stage, workdir)
             else:
                 import special
-                results = special.RUNNERS[runner](prop, tier, seed, stage, workdir)
+                results = special.RUNNERS[runner](prop, tier, seed, stage, workdir, sys.modules[__name__])
             st_eval = 0
             for r in results:
                 if r.inconclusive:
